@@ -882,6 +882,10 @@ func flowsFrom(v ssa.Value, pred func(ssa.Value) bool, depth int, seen map[ssa.V
 		return flowsFrom(x.X, pred, depth+1, seen) || flowsFrom(x.Y, pred, depth+1, seen)
 	case *ssa.Convert:
 		return flowsFrom(x.X, pred, depth+1, seen)
+	case *ssa.IndexAddr:
+		return flowsFrom(x.X, pred, depth+1, seen)
+	case *ssa.Index:
+		return flowsFrom(x.X, pred, depth+1, seen)
 	}
 	return false
 }
